@@ -2,7 +2,7 @@
 
 // C18 (deepening round) correspondence harness for the stateful HTTP response cache (http/client/caching.go) that
 // did:web resolution shares with the rest of the node: the REAL responseCache.get / insert / pop /
-// removeExpiredEntries and CachingRoundTripper.RoundTrip are driven with generated operation sequences on look-alike
+// removeExpiredEntries and CachingRoundTripper.RoundTrip (as repaired by /repo commit b991549) are driven with generated operation sequences on look-alike
 // URLs; after every step the whole internal state (currentSizeBytes, linked list, entriesByURL) is dumped.
 // One op line = one cache instance.  Time: one unit = 1/1000 minute relative to the start of the case; direct
 // inserts carry explicit expiry offsets (whole minutes, past or future), RoundTrip answers carry max-age.
@@ -172,7 +172,8 @@ func hcGenerate(seed int64, thorough bool) []hcOp {
 	u := hcBase
 	past, fut := int64(-30000), int64(90000)
 	fixed := []hcOp{
-		// an entry displaced by a later insert stays in entriesByURL after its expiry
+		// (pre-b991549: an entry displaced by a later insert stayed in entriesByURL after its expiry; a body of exactly the
+		// cache size made insert spin for ever)
 		{Op: "hc", Tag: "hc-fixed", Max: 100, Steps: []hcStep{{K: "ins", U: u, M: "GET", Sz: 8, Exp: past}, {K: "ins", U: hcVariants()[5], M: "GET", Sz: 8, Exp: fut}, {K: "get", U: u, M: "GET", Now: 3}}},
 		// a body of exactly the cache size
 		{Op: "hc", Tag: "hc-fixed", Max: 24, Steps: []hcStep{{K: "ins", U: u, M: "GET", Sz: 24, Exp: fut}}},
@@ -264,16 +265,24 @@ func hcDump(c *responseCache, base time.Time) string {
 	return fmt.Sprintf("%d/%s/%s", c.currentSizeBytes, strings.Join(lst, "."), strings.Join(m, "."))
 }
 
-// would the make-room loop of insert spin for ever? (then the call is not made: outcome `hang`)
-func hcWouldHang(c *responseCache, sz int) bool {
-	if sz > c.maxBytes {
+// hcReturns runs fn and reports whether it returned.  The calls take microseconds; the generous limit only ends a call
+// that spins for ever (the pre-b991549 make-room loop did).  After the first such call no further case is executed (the
+// spinning goroutine cannot be stopped and holds a CPU until the process ends).
+var hcHung bool
+
+func hcReturns(fn func()) bool {
+	done := make(chan struct{})
+	go func() {
+		defer func() { recover(); close(done) }()
+		fn()
+	}()
+	select {
+	case <-done:
+		return true
+	case <-time.After(60 * time.Second):
+		hcHung = true
 		return false
 	}
-	s := c.currentSizeBytes
-	for e := c.head; e != nil; e = e.next {
-		s -= len(e.responseData)
-	}
-	return s+sz >= c.maxBytes
 }
 
 func hcEntry(st hcStep, id int, base time.Time) *cacheEntry {
@@ -288,6 +297,9 @@ func hcEntry(st hcStep, id int, base time.Time) *cacheEntry {
 
 func hcExec(op hcOp) (line string) {
 	var outs []string
+	if hcHung {
+		return "hc skipped-after-hang"
+	}
 	defer func() {
 		if r := recover(); r != nil {
 			line = "hc " + strings.Join(append(outs, fmt.Sprintf("panic:%v", r)), ";")
@@ -314,11 +326,11 @@ func hcExec(op hcOp) (line string) {
 				outs = append(outs, "bad-size")
 				return "hc " + strings.Join(outs, ";")
 			}
-			if hcWouldHang(c, st.Sz) {
+			ent := hcEntry(st, nid, base)
+			if !hcReturns(func() { c.insert(ent) }) {
 				outs = append(outs, "ins:hang")
 				return "hc " + strings.Join(outs, ";")
 			}
-			c.insert(hcEntry(st, nid, base))
 			nid++
 			outs = append(outs, "ins:ok "+hcDump(c, base))
 		case "lnk":
@@ -353,14 +365,17 @@ func hcExec(op hcOp) (line string) {
 			outs = append(outs, "pop "+hcDump(c, base))
 		case "rt":
 			stub.ans, stub.hit = st.Ans, false
-			if st.M == http.MethodGet && st.Ans != nil && !st.Ans.Fail && st.Ans.Ca != nil {
-				if pre := c.get(req); pre == nil && hcWouldHang(c, st.Ans.Sz) {
-					outs = append(outs, "rt:hang")
-					return "hc " + strings.Join(outs, ";")
-				}
-			}
 			before := nid
-			resp, err := tr.RoundTrip(req)
+			var resp *http.Response
+			var err error
+			if !hcReturns(func() { resp, err = tr.RoundTrip(req) }) {
+				outs = append(outs, "rt:hang")
+				return "hc " + strings.Join(outs, ";")
+			}
+			if err == nil && resp == nil {
+				outs = append(outs, "rt:panic")
+				return "hc " + strings.Join(outs, ";")
+			}
 			var o string
 			switch {
 			case err != nil:
